@@ -466,4 +466,38 @@ theorem ascii_prefix (e : PStr) (he : NameLike e) (lit : PStr) (hl : lit.all (fu
   · exact (he c hc).1
   · simp at hc; omega
 
+/-! ### the rewrite is literal: whatever the name is made of, it ends up verbatim in the result -/
+
+theorem subGo_contains (e : PStr) : ∀ (s : PStr) (bol : Bool), charsetReSearch bol s = true →
+    e <:+: subGo (fun g1 => g1 ++ e) 0 bol s := by
+  intro s
+  induction s with
+  | nil => intro bol h; simp [charsetReSearch] at h
+  | cons c cs ih =>
+    intro bol h
+    rw [subGo]
+    cases hm : matchAt bol (c :: cs) with
+    | some gm =>
+      obtain ⟨g1, m⟩ := gm
+      exact ⟨List.take g1 (c :: cs), subGo (fun g1 => g1 ++ e) (m - 1) (charsetReMultiline && c == 10) cs, rfl⟩
+    | none =>
+      simp only [charsetReSearch, hm, Option.isSome_none, Bool.false_or] at h
+      obtain ⟨a, b, hab⟩ := ih _ h
+      exact ⟨c :: a, b, by simp [← hab]⟩
+
+/-- every piece the scanner emits is either a character of the input or `repl` of a prefix of the rest: with the
+    Python-specific replacement nothing is ever added -/
+theorem subGo_empty_length (s : PStr) : ∀ (k : Nat) (bol : Bool), (subGo (fun _ => []) k bol s).length ≤ s.length := by
+  induction s with
+  | nil => intro k bol; cases k <;> simp [subGo]
+  | cons c cs ih =>
+    intro k bol
+    cases k with
+    | succ k => rw [subGo]; have := ih k (charsetReMultiline && c == 10); simp; omega
+    | zero =>
+      rw [subGo]
+      cases hm : matchAt bol (c :: cs) with
+      | some gm => obtain ⟨g1, m⟩ := gm; have := ih (m - 1) (charsetReMultiline && c == 10); simp; omega
+      | none => have := ih 0 (charsetReMultiline && c == 10); simp; omega
+
 end BS.EncodingOut
